@@ -786,6 +786,8 @@ def c08(tier):
     for kind in ("nocreate", "norename"):
         model_step(v, tiered("intended/C08env_%s.cfg" % kind, tier), need=("CreateTmp", "Exit"))
     expect_counterexample(v, "asfound/C08ignored.cfg", ("FailureMeansNonZero", "ExitZeroDone"))
+    # observation O11 (outside C08's quantifier: a failure while the source directory is read): the model shows what follows
+    expect_counterexample(v, "asfound/O11walkfault.cfg", ("ExitZeroDone",))
     binary = common.build_breadlog()
     batch = rl.Batch()
     errs = ["EIO", "ENOSPC", "EACCES", "EXDEV"] if tier == "thorough" else ["EIO", "EXDEV", "ENOSPC"]
@@ -843,7 +845,7 @@ def c08(tier):
 
 def c16(tier):
     v = Verdict("C16", tier)
-    model_step(v, "intended/C16.cfg", need=("ReadLock", "LockWrite", "Pass1File", "Discover"))
+    model_step(v, "intended/C16.cfg", need=("ReadLock", "LockWrite", "Pass1File", "DiscoverStart", "DiscoverEntry", "DiscoverDone"))
     binary = common.build_breadlog()
     batch = rl.Batch()
     trees = [{"f1.rs": [S(11), S(12, ref=30)], "f2.rs": [S(21)]},
@@ -911,11 +913,12 @@ def c16(tier):
 
 def c18(tier):
     v = Verdict("C18", tier)
-    model_step(v, tiered("intended/C18.cfg", tier), need=("Signal", "Discover", "ScanFile", "Pass1File", "Pass2Next", "LockWrite"))
+    model_step(v, tiered("intended/C18.cfg", tier), need=("Signal", "DiscoverStart", "DiscoverEntry", "DiscoverDone", "ScanFile", "Pass1File", "Pass2Next", "LockWrite"))
     r = run_tlc("MCRun.tla", "intended/C18live.cfg", workers=min(8, common.NCPU), coverage=False)
     require_tlc_ok(r, "C18live")
     v.add_tlc(r, "intended/C18live.cfg (liveness: stop ~> exit)")
     expect_counterexample(v, "asfound/C18sigint.cfg", ("ExitsByItself", "InterruptedCheckNeverPasses", "StopMeansNonZeroOrDone"))
+    expect_counterexample(v, "asfound/C18partial.cfg", ("InterruptedCheckNeverPasses", "StopMeansNonZeroOrDone"))
     binary = common.build_breadlog()
     batch = rl.Batch()
     scens = []
